@@ -52,11 +52,11 @@ RES_DEFAULT = F(1, 1000)
 
 
 def budget_s(tier):
-    return 400 if tier == "quick" else 3600
+    return 400 if tier == "quick" else 7200
 
 
 LEVELS_QUICK = [(2, 1, K_ALL), (2, 2, K_ALL), (3, 2, K_ALL), (2, 3, K12), (3, 3, K12), (3, 4, K4)]
-LEVELS_THOROUGH = [(2, 1, K_ALL), (2, 2, K_ALL), (3, 2, K_ALL), (2, 3, K_ALL), (3, 3, K_ALL), (3, 4, K5 + ("Vacl", "G")), (4, 3, K12), (4, 4, K5), (4, 5, K4)]
+LEVELS_THOROUGH = [(2, 1, K_ALL), (2, 2, K_ALL), (3, 2, K_ALL), (2, 3, K_ALL), (3, 3, K_ALL), (3, 4, K5 + ("Vacl", "G")), (4, 3, K12), (4, 4, K5)]
 
 
 SRC_W = {"Vdc": 0, "Vdcl": 0, "Idc": 0, "Idcl": 0, "Vac": 1, "Iac": 1, "Vacl": 2, "Iacl": 2, "Vach": 2000, "Iach": 2000}
